@@ -160,7 +160,7 @@ Section Total.
   Notation build_metric := (om_build_metric legacy NUM parse_float num_lt num_eqb num_zero num_inf).
   Notation flush := (om_flush legacy NUM parse_float num_lt num_eqb num_zero num_inf).
   Notation meta_line := (om_meta_line legacy true fix_unit NUM parse_float num_lt num_eqb num_zero num_inf).
-  Notation enter_family := (om_enter_family legacy true fix_sname NUM parse_float num_lt num_eqb num_zero num_inf).
+  Notation enter_family := (om_enter_family legacy true true fix_sname NUM parse_float num_lt num_eqb num_zero num_inf).
   Notation group_step := (om_group_step true NUM num_lt num_eqb ts_float).
   Notation pre_checks := (om_pre_checks NUM parse_float num_lt num_eqb num_integral num_zero num_one num_inf).
   Notation post_checks := (om_post_checks true NUM num_lt num_eqb num_huge num_zero num_one).
@@ -572,8 +572,8 @@ Section Total.
     assert (Hname : st_typ st <> None \/ st_allowed st <> [] -> exists name, st_name st = Some name).
     { intro X. unfold Inv in HI0. destruct (st_name st) as [n|]; [eexists; reflexivity|].
       destruct HI0 as [A B]. destruct X; contradiction. }
-    destruct (negb (mem_str (os_name s) (st_allowed st)) && negb b) eqn:C.
-    - apply andb_true_iff in C as [C1 C2]. destruct b; [discriminate|].
+    destruct (negb (mem_str (os_name s) (st_allowed st)) && negb (b && _)) eqn:C.
+    - apply andb_true_iff in C as [C1 C2]. destruct b; [split; [reflexivity|discriminate]|].
       pose proof (VE_flush st HI0) as F. destruct (flush st) as [[o seen']|e]; cbn [bind]; [|split; [exact F|discriminate]].
       assert (U : only_VE (om_implicit_name true fix_sname NUM s)).
       { unfold om_implicit_name. destruct fix_sname; [exact I|].
@@ -587,7 +587,7 @@ Section Total.
     - split; [exact I|]. intros st1 out E. inversion E; subst. split; [exact HI0|].
       destruct b.
       + split; [|reflexivity]. apply Hname. left. rewrite (Hb eq_refl). discriminate.
-      + rewrite andb_true_r in C. apply negb_false_iff in C. split; [|exact C].
+      + cbn [andb negb] in C. rewrite andb_true_r in C. apply negb_false_iff in C. split; [|exact C].
         apply Hname. right. intro X. rewrite X in C. discriminate.
   Qed.
 
